@@ -70,7 +70,7 @@ class PathResult:
 
 class Machine:
     def __init__(self, prog, enums=None, overrides=None, feas_timeout_ms=2000, max_blocks=4000,
-                 overflow_checks=True, float_rem='exact'):
+                 overflow_checks=True, float_rem='exact', feas_mode='relax'):
         self.prog = prog
         self.enums = dict(BUILTIN_ENUMS)
         if enums:
@@ -89,6 +89,9 @@ class Machine:
         self.float_rem = float_rem                   # 'exact' | 'uf'
         self.solver = z3.Solver()
         self.solver.set('timeout', feas_timeout_ms)
+        from .relax import Relax
+        self.feas_mode = feas_mode                   # 'relax': real-arithmetic relaxation (sound pruning) | 'fp': z3 FP theory
+        self.relax = Relax()
         self.stats = dict(paths=0, feas_queries=0, feas_unknown=0, blocks=0, calls=0, model_calls=0)
         self.fns_used = {}
         self.models_used = set()
@@ -98,6 +101,7 @@ class Machine:
         # per path
         self.pc = []; self.prefix = []; self.trace = []; self.depth = 0; self.work = []
         self.assumes = []
+        self.memo_table = {}; self._memo_simp_stack = []
 
     # ------------------------------------------------------------------ exploration
     def explore(self, harness, max_paths=200000, time_budget=None, prefixes=None):
@@ -117,6 +121,7 @@ class Machine:
         self.pc = []; self.prefix = prefix; self.trace = []; self.depth = 0; self.assumes = []
         self.lazy_cache = {}; self.static_cells = {}
         self.solver.push()
+        self.n_axioms = 0          # axioms are re-asserted inside this path's scope
         self.stats['paths'] += 1
         try:
             try:
@@ -133,6 +138,30 @@ class Machine:
         r.decisions = list(self.trace); r.assumes = list(self.assumes)
         return r
 
+    def memo(self, key, fn):
+        """run fn() (a self-contained sub-computation whose only effect is its return value) once per distinct
+        sequence of branch decisions; replays of the same decisions reuse a deep copy of the recorded result"""
+        import copy
+        entry_depth = self.depth
+        table = self.memo_table.setdefault((key, tuple(self.trace)), [])
+        if entry_depth <= len(self.prefix):
+            rest = self.prefix[entry_depth:]
+            for dec, val, pcs, simp in table:
+                if len(dec) <= len(rest) and rest[:len(dec)] == dec:
+                    for c, sc in zip(pcs, simp):
+                        self.pc.append(c); self._add(sc)
+                    self.trace.extend(dec); self.depth += len(dec)
+                    return copy.deepcopy(val)
+        pc0 = len(self.pc)
+        self._memo_simp_stack.append([])
+        try:
+            val = fn()
+        finally:
+            simp = self._memo_simp_stack.pop()
+        dec = self.trace[entry_depth:]
+        table.append((list(dec), copy.deepcopy(val), list(self.pc[pc0:]), simp))
+        return val
+
     def assume(self, cond):
         """harness-level assumption (precondition); part of the path condition"""
         c = z3.simplify(cond)
@@ -140,11 +169,26 @@ class Machine:
             return
         if z3.is_false(c):
             raise Infeasible()
-        self.pc.append(cond); self.solver.add(c); self.assumes.append(cond)
+        self.pc.append(cond); self._add(c); self.assumes.append(cond)
+
+    def _rx(self, c):
+        if self.feas_mode != 'relax':
+            return c
+        t = self.relax.b(c)
+        if len(self.relax.axioms) > self.n_axioms:
+            for a in self.relax.axioms[self.n_axioms:]:
+                self.solver.add(a)
+            self.n_axioms = len(self.relax.axioms)
+        return t
+
+    def _add(self, c):
+        for st in self._memo_simp_stack:
+            st.append(c)
+        self.solver.add(self._rx(c))
 
     def feasible(self, cond):
         self.stats['feas_queries'] += 1
-        r = self.solver.check(cond)
+        r = self.solver.check(self._rx(cond))
         if r == z3.unknown:
             self.stats['feas_unknown'] += 1
         return r != z3.unsat
@@ -172,7 +216,7 @@ class Machine:
         self.trace.append(i)
         # the raw (unsimplified) condition is recorded so that exported queries share sub-terms with the
         # reference models syntactically (z3's simplifier rewrites a-b into a+(-b) etc.)
-        self.pc.append(conds[i]); self.solver.add(simp[i])
+        self.pc.append(conds[i]); self._add(simp[i])
         return i
 
     def branch(self, cond):
@@ -296,6 +340,11 @@ class Machine:
             return Sc(m.group(3), z3.simplify(fp_const(x, F32 if m.group(3) == 'f32' else F64)))
         if s.startswith('"'):
             return Opaque('str', text=s)
+        if s.startswith('ZeroSized: '):
+            t = s[11:].strip()
+            if t.startswith('{closure@'):
+                return Agg(t, [])
+            return FnItem(t)
         if s.startswith("'") and s.endswith("'"):
             return Sc('char', z3.BitVecVal(ord(s[1:-1].encode().decode('unicode_escape')), 32))
         m = re.fullmatch(r'\{alloc\d+: &(?:mut )?(.*)\}', s)
@@ -330,7 +379,7 @@ class Machine:
         return FnItem(s)
 
     def try_variant(self, path, fields):
-        segs = split_path(path)
+        segs = [x for x in split_path(path) if not x.startswith('<')]
         if len(segs) >= 2:
             vname = strip_generics(segs[-1]).strip()
             ename = strip_generics(segs[-2]).strip()
@@ -758,6 +807,8 @@ class Machine:
                 if f.impl_self == q: s += 3
                 if a0 == q: s += 2
                 if f.impl_span is None and strip_generics(f.name).split('::')[-2:-1] == [q]: s += 2
+                if type_head(f.ret) == q: s += 2
+                elif q in f.ret: s += 1
             if rt is not None and a0 is not None:
                 if a0 == rt: s += 3
                 elif f.impl_self == rt: s += 1
